@@ -2,7 +2,7 @@
 # tools/variant.sh <patch.diff> <ID> [<ID>...]   — run checks against a scratch copy of /repo with the patch applied.
 # Prints per ID: exit code and VIOLATION / KNOWN-FINDING lines.  Evidence goes to a scratch dir, never to /verif/evidence.
 set -u
-patch="$1"; shift
+patch=$(realpath "$1"); shift
 V=$(mktemp -d /tmp/verif-variant-XXXXXX)
 trap 'rm -rf "$V"' EXIT
 rsync -a --exclude target --exclude .git /repo/ "$V/repo/"
